@@ -77,6 +77,8 @@ func c02Table() []GuardReq {
 }
 
 func runC02(c *Ctx) {
+	checkReceiverMutation(c, 20, [][2]string{{"consensus", "MidState"}})
+
 	c.Explain("Decides the structural clauses of 'no double spend / double resolution': (1) guard inventory per (transaction version x element kind): the in-block spent set is consulted, the element must exist, intra-transaction duplicates are rejected (the lookup map is both consulted and written), v2 parents are live leaves of the base accumulator (or, if ephemeral, created earlier in the block), v1 supplement parents are live leaves — each guard with the right operands by provenance, rejecting polarity, and not bypassable; (2) spends are recorded: every function that marks an element spent/resolved also inserts its ID into the MidState's spent set on every normal path, and the apply functions call such a recorder for every input-like field; the expiring-contract loop skips already-resolved contracts; (3) the spent/resolved status reaches the accumulator leaf: leaf constructors receive the diff's flag and the leaf hash commits it. It does not decide accumulator algebra (that a proof valid before the first use fails afterwards).")
 	c.NotCovered("accumulator proof algebra (C05)", "reorg interplay across blocks")
 	ge := NewGuardEngine(c.P, c.Depth+4)
@@ -90,7 +92,10 @@ func runC02(c *Ctx) {
 
 // c02MapsWritten: the duplicate-detection maps are written with the same key they are consulted with.
 func c02MapsWritten(c *Ctx, ge *GuardEngine) {
-	type row struct{ id, entry, key string; min int }
+	type row struct {
+		id, entry, key string
+		min            int
+	}
 	rows := []row{
 		{"v1:SiacoinInputs", VT, "%T1%.SiacoinInputs[*].ParentID", 1},
 		{"v1:SiafundInputs", VT, "%T1%.SiafundInputs[*].ParentID", 1},
@@ -262,7 +267,10 @@ func c02LeafFlags(c *Ctx, ge *GuardEngine) {
 		c.Undecided("leaf-flag", "entry", CAB, "consensus.ApplyBlock does not resolve")
 		return
 	}
-	rows := []struct{ dist, elem, flag string; flagArg int }{
+	rows := []struct {
+		dist, elem, flag string
+		flagArg          int
+	}{
 		{"leaf/siacoin", "….sces[*].SiacoinElement", "….sces[*].Spent", 1},
 		{"leaf/siafund", "….sfes[*].SiafundElement", "….sfes[*].Spent", 1},
 		{"leaf/filecontract", "….fces[*].FileContractElement", "….fces[*].Resolved", 2},
